@@ -53,6 +53,36 @@ def gen_case(rng, tier, idx):
     return {"spec": spec}
 
 
+STATE_EXEMPT = {"time_step_counter"}   # the only field that differs by construction (step index of the day)
+
+
+def _state_copy(cond):
+    out = {}
+    for k, v in cond.__dict__.items():
+        out[k] = np.array(v, dtype=float, copy=True) if isinstance(v, np.ndarray) else v
+    return out
+
+
+def _state_diff(a, b):
+    bad = []
+    for k in a:
+        if k in STATE_EXEMPT:
+            continue
+        x, y = a[k], b.get(k)
+        if isinstance(x, np.ndarray) or isinstance(y, np.ndarray):
+            try:
+                same = np.array_equal(np.asarray(x, dtype=float), np.asarray(y, dtype=float), equal_nan=True)
+            except Exception:
+                same = False
+        elif isinstance(x, float) and isinstance(y, float) and x != x and y != y:
+            same = True
+        else:
+            same = (x == y) and (type(x) is type(y) or isinstance(x, (int, float, np.number)))
+        if not same:
+            bad.append((k, x, y))
+    return bad
+
+
 def _season_rows(t, k):
     fl = t["flux"]
     idx = np.flatnonzero((fl[:, FI["season_counter"]] == k) & (fl[:, FI["dap"]] > 0))
@@ -67,8 +97,12 @@ def run_case(case):
         th_end = {}
         box = {}
 
+        st_m = {}
+
         def on_day(n, rec):
             th_end[rec.season] = rec.th1
+            if rec.season >= 1 and rec.growth[2] in (1.0, 3.0):
+                st_m[(rec.season, int(rec.growth[2]))] = _state_copy(n._cond)
             n.records.clear()
         M.day_hooks.append(on_day)
         M.run_to_end()
@@ -84,7 +118,14 @@ def run_case(case):
                 continue
             spec_k = clone(spec)
             spec_k["start"] = fmt_date(pl[k].date())
-            R = Node(spec_k)
+            R = Node(spec_k, probes=("days",))
+            st_r = {}
+
+            def on_day_r(n, rec, st_r=st_r):
+                if rec.season == 0 and rec.growth[2] in (1.0, 3.0):
+                    st_r[int(rec.growth[2])] = _state_copy(n._cond)
+                n.records.clear()
+            R.day_hooks.append(on_day_r)
             R.run_to_end()
             tr = R.tables()
             res["days"] += R.steps_done
@@ -126,6 +167,17 @@ def run_case(case):
                         same = (a[2] == b[2] and a[3] == b[3] and a[4] - shift == b[4] and all((x == y) or (x != x and y != y) for x, y in zip(a[5:], b[5:])))
                         if not same:
                             v = ("C08:summary-row-differs", f"{label}: summary {a} vs fresh run {b} (step shift {shift})")
+            if v is None:
+                # the model state carried out of day 1 / day 3 of the season must be that of the fresh run: by then every
+                # field that is re-initialised on first use has been written, so a remaining difference is state of the
+                # earlier season surviving the reset (stress counters, timers) even where no output has diverged yet
+                for d in (1, 3):
+                    if (k, d) in st_m and d in st_r:
+                        bad = _state_diff(st_m[(k, d)], st_r[d])
+                        if bad:
+                            f, x, y = bad[0]
+                            v = (f"C08:state-survives-reset:{f}", f"{label}: after day {d} of the season the state field '{f}' is {x!r} in the multi-season run and {y!r} in the fresh run (other differing fields: {[b[0] for b in bad[1:6]]})")
+                            break
             # non-trivial: previous season ended with a different water content than the initial one
             if th_init is None:
                 th_init = np.array(R.model._init_cond.thini, dtype=float)
